@@ -17,7 +17,8 @@ CONSTANTS Authors,      \* set of client ids that edit
           MapKeys,      \* keys of root map "m" that may be written ({} = no map operations)
           Nest,         \* allow nested arrays / maps as values
           MaxDel,       \* total number of delete / remove operations
-          Dups          \* observer may receive an update twice
+          Dups,         \* observer may receive an update twice
+          Merge         \* observer may receive several updates merged into one (merge_updates)
 
 VARIABLES E, XD, S, upd, got, known, ops, dels, phase, hist
 vars == <<E, XD, S, upd, got, known, ops, dels, phase, hist>>
@@ -157,6 +158,14 @@ Deliver(i) ==
   /\ hist' = Append(hist, [a |-> "dlv", r |-> Obs, u |-> <<i>>])
   /\ UNCHANGED <<E, XD, upd, known, ops, dels, phase>>
 
+DeliverMerged(us) ==
+  LET ins == UNION {upd[us[i]].ins : i \in 1..Len(us)}
+      del == UNION {upd[us[i]].del : i \in 1..Len(us)}
+  IN /\ S' = [S EXCEPT ![Obs] = ApplyAlg(E, S[Obs], ins, del)]
+     /\ got' = got \o us
+     /\ hist' = Append(hist, [a |-> "dlv", r |-> Obs, u |-> us])
+     /\ UNCHANGED <<E, XD, upd, known, ops, dels, phase>>
+
 KeysOf(cn) == IF cn[2] = None THEN MapKeys ELSE {"k1"}
 Kinds == IF Nest THEN {"u", "A", "M"} ELSE {"u"}
 KindsAt(cn) == IF cn[2] = None /\ cn[1] # "t" THEN Kinds ELSE {"u"}
@@ -180,6 +189,9 @@ Next ==
      /\ \E i \in 1..Len(upd) :
           /\ (i \notin Range(got) \/ (Dups /\ Len(got) = Cardinality(Range(got))))
           /\ Deliver(i)
+  \/ /\ phase = "B" /\ Merge
+     /\ \E i, j \in (1..Len(upd)) \ Range(got) : i # j /\
+          (DeliverMerged(<<i, j>>) \/ \E k \in (1..Len(upd)) \ (Range(got) \cup {i, j}) : DeliverMerged(<<i, j, k>>))
 
 Init ==
   /\ E = [x \in {} |-> 0] /\ XD = {}
